@@ -189,10 +189,24 @@ def nontrivial_static(fn):
             or 'sib' in fn or 'to_r' in fn or 'abs_' in fn)
 
 
-def cp(path):
-    '''list of parts (code points) -> Gallina'''
-    return '[' + ';'.join('[' + ';'.join(str(c) for c in part) + ']'
-                          for part in path) + ']'
+STATIC_PRE = (
+    'Require Import NArith. Open Scope N_scope.\n'
+    '(* literals are written as binary N and converted inside vm_compute: nat\n'
+    '   numerals are expensive to parse *)\n'
+    'Definition S_ (l : list N) : list nat := map N.to_nat l.\n'
+    'Definition P_ (l : list (list N)) : path := map S_ l.\n'
+)
+
+
+def cp(path, base=None, tag=''):
+    '''list of parts (code points) -> Gallina path; parts under the tree's base
+    directory are written relative to the constant B_'''
+    def lit(ps):
+        return '[' + ';'.join('[' + ';'.join(str(c) for c in part) + ']'
+                              for part in ps) + ']'
+    if base is not None and path[:len(base)] == base:
+        return '(U_%s %s)' % (tag, lit(path[len(base):]))
+    return '(P_ %s)' % lit(path)
 
 
 def path_str(path):
@@ -216,7 +230,7 @@ def static_half(ctx):
                              'requests': requests_for(ctx, t, nreq)})
     out = ctx.harness('drive_static.py', pay)
     ctx.log('static driver done: %d requests' % sum(len(t['requests']) for t in out['trees']))
-    exprs, meta = [], []
+    per_tree = {}
     hist = {}
     big = 0
     for tr in out['trees']:
@@ -285,21 +299,42 @@ def static_half(ctx):
                 big += 1
                 continue
 
+            base = [[ord(c) for c in part]
+                    for part in tr['base'].strip('/').split('/')]
+
             def opt(x, f):
                 return 'None' if x is None else '(Some %s)' % f(x)
 
-            tres = '[' + ';'.join('(%s,%s)' % (cp(a), opt(b2, cp))
+            tag = str([t0['name'] for t0 in out['trees']].index(tr['name']))
+
+            def pb(x):
+                return cp(x, base, tag)
+
+            def bl(v):
+                return 'true' if v else 'false'
+
+            tres = '[' + ';'.join('(%s,%s)' % (pb(a), opt(b2, pb))
                                   for a, b2, _ in rec['resolve']) + ']'
-            tdir = '[' + ';'.join('(%s,%s)' % (cp(a), opt(b2, lambda v: 'true' if v else 'false'))
+            tdir = '[' + ';'.join('(%s,%s)' % (pb(a), opt(b2, bl))
                                   for a, b2, _ in rec['is_dir']) + ']'
-            tfil = '[' + ';'.join('(%s,%s)' % (cp(a), opt(b2, lambda v: 'true' if v else 'false'))
+            tfil = '[' + ';'.join('(%s,%s)' % (pb(a), opt(b2, bl))
                                   for a, b2, _ in rec['is_file']) + ']'
-            exprs.append(
-                'static (tbl_resolve %s) (tbl_bool %s) (tbl_bool %s) [%s] %s %s'
+            per_tree.setdefault(tr['name'], (tr, base, [], []))
+            per_tree[tr['name']][2].append(
+                'static (tbl_resolve %s) (tbl_bool %s) (tbl_bool %s) (S_ [%s]) %s %s'
                 % (tres, tdir, tfil, ';'.join(str(ord(c)) for c in fn),
-                   cp(tr['fe']), cp(tr['bd'])))
-            meta.append((tr, rq))
-    vals = ctx.coq_eval(['DV.Model.Static'], exprs, z_scope=False)
+                   pb(tr['fe']), pb(tr['bd'])))
+            per_tree[tr['name']][3].append((tr, rq))
+    exprs, meta, pre = [], [], STATIC_PRE
+    for name, (tr, base, ex, ms) in per_tree.items():
+        tag = str([t0['name'] for t0 in out['trees']].index(name))
+        pre += 'Definition B_%s : path := %s.\n' % (tag, cp(base))
+        pre += ('Definition U_%s (l : list (list N)) : path := B_%s ++ P_ l.\n'
+                % (tag, tag))
+        exprs += ex
+        meta += ms
+    vals = ctx.coq_eval(['DV.Model.Static'], exprs, preamble=pre,
+                        z_scope=False, chunk=90)
     ctx.log('static model evaluated: %d cases' % len(vals))
     mism = None
     keys = []
